@@ -429,7 +429,7 @@ func init() {
 	eng.Register(&eng.Scenario{
 		Name: "keyedref-concurrent", Props: []string{"C06"}, MustFinish: true, ObsNames: stdObs,
 		Doc:   "KeyedRefCount, two threads each AddKeyRef(a); check; Release (one of them twice) plus a third thread AddKeyRef(b)/RemoveKey(b): while a thread holds an unreleased reference its key is present; at the end no key remains",
-		Quick: eng.Bounds{PB: 2}, Thorough: eng.Bounds{PB: 3},
+		Quick: eng.Bounds{PB: 2, Delay: true}, Thorough: eng.Bounds{PB: 3, Delay: true},
 		Body: func() {
 			delay := vsched.Choose(2) == 1
 			var opts []keyed.Option[string, int]
